@@ -39,3 +39,11 @@ def run(ctx):
     c11.hashed_subpackets_all_fed(ctx, P)
     c16.same_form(ctx, P)
     c16.trim_set(ctx, P)
+    # the canonicalisers emit input octets and inserted CRs only (shared with C14): one that drops or adds an octet makes a text
+    # signature verify for a document that differs from the signed one by that octet
+    from rules import c14
+    c14.hasher_rules(ctx, P)
+    c14.reader_rules(ctx, P)
+    # every bit of a hashed key-flags subpacket is kept (shared with C05): dropped bits are hashed as 0 whatever the packet says
+    from rules.tables import bitfield_parse_total
+    bitfield_parse_total(ctx, P)
